@@ -41,7 +41,9 @@ pub fn op_keygen(n: usize, seed: &[u8]) -> String {
     let (f, g, cf, cg) = fgfg(&k);
     let lmin = k.leaves.iter().cloned().fold(f64::INFINITY, f64::min);
     let lmax = k.leaves.iter().cloned().fold(f64::NEG_INFINITY, f64::max);
-    format!("{} {} {} {} {} {} {}", ints(&f), ints(&g), ints(&cf), ints(&cg), ints(&k.h), lmin.to_bits(), lmax.to_bits())
+    // `window=ok`: what the model must report about the exactness window of the 32-bit top level for this key (the
+    // hypothesis of C04.model_generated_keys_are_ntru_trapdoors; the real code has no such notion, a valid key implies it)
+    format!("{} {} {} {} {} {} {} window=ok", ints(&f), ints(&g), ints(&cf), ints(&cg), ints(&k.h), lmin.to_bits(), lmax.to_bits())
 }
 
 /// `sk_roundtrip N seed`: sizes and round trips of sk, pk and a signature; the decoded key signs, the original pk verifies
